@@ -1,5 +1,6 @@
 import Orca.Gen.ValTypes
 import Orca.Gen.ConstExpr
+import Orca.Model.Sections
 import Driver.Util
 /-! driver of the `roundtrip` family: the conversions wirm performs itself, predicted from the regenerated tables -/
 namespace Driver
@@ -43,8 +44,15 @@ def runRoundtrip (toks : List String) : List String :=
       match evalTable.find? (fun r => r.1 == c) with
       | some r => (encTable r.2.1).1
       | none => "PANIC"
+    -- the section plan (M15): `shape=` carries the thirteen numbers of `Orca.Sections.Shape` as counted on the input
+    let secs : String :=
+      match ((kv rest "shape").getD "").splitOn "." |>.mapM (·.toNat?) with
+      | some [a, b, c, d, e, f, g, h, i, j, k, l, m] =>
+        showStrs ((Orca.Sections.plan ⟨a, b, c, d, e, f, g, h, i != 0, j, k != 0, l, m⟩).map toString)
+      | _ => "bad-shape"
     if outV.contains "PANIC" || outC.contains "PANIC" then [s!"roundtrip {case} PANIC"]
-    else [s!"roundtrip {case} vts={showStrs outV}", s!"roundtrip {case} consts={showStrs outC}", s!"roundtrip {case} groups={groups}"]
+    else [s!"roundtrip {case} vts={showStrs outV}", s!"roundtrip {case} consts={showStrs outC}", s!"roundtrip {case} groups={groups}",
+          s!"roundtrip {case} secs={secs}"]
   | [] => []
 
 end Driver
